@@ -335,6 +335,13 @@ impl Endpoint {
         if remote.port() == 0 || remote.ip().is_unspecified() {
             return Err(ConnectError::InvalidRemoteAddress(remote));
         }
+        if self.local_cid_generator.cid_len() == 0
+            && self.index.outgoing_connection_remotes.contains_key(&remote)
+        {
+            // With zero-length CIDs the remote address alone identifies a connection; a second
+            // one would silently take over the first one's datagrams
+            return Err(ConnectError::CidsExhausted);
+        }
         if !self.config.supported_versions.contains(&config.version) {
             return Err(ConnectError::UnsupportedVersion);
         }
